@@ -258,6 +258,63 @@ type vfxRig struct {
 	seen   []*vfxSeen
 
 	conn *vfxConn // reusable client connection (nil when none)
+
+	frontLog vfxLogBuf // what net/http's ErrorLog of the front server printed (handler panics end up here)
+}
+
+type vfxLogBuf struct {
+	mu sync.Mutex
+	b  bytes.Buffer
+}
+
+func (l *vfxLogBuf) Write(p []byte) (int, error) {
+	l.mu.Lock()
+	defer l.mu.Unlock()
+	if l.b.Len() < 64<<10 {
+		l.b.Write(p)
+	}
+	return len(p), nil
+}
+
+// take returns and clears the collected log text.
+func (l *vfxLogBuf) take() string {
+	l.mu.Lock()
+	defer l.mu.Unlock()
+	s := l.b.String()
+	l.b.Reset()
+	return s
+}
+
+// vfxPanicSite extracts "panic text @ first easegress frame" from a net/http "panic serving" log.
+func vfxPanicSite(logText string) string {
+	i := strings.Index(logText, "panic serving")
+	if i < 0 {
+		return ""
+	}
+	t := logText[i:]
+	first := t
+	if j := strings.IndexByte(first, '\n'); j >= 0 {
+		first = first[:j]
+	}
+	if j := strings.Index(first, ": "); j >= 0 {
+		first = first[j+2:]
+	}
+	site := "?"
+	lines := strings.Split(t, "\n")
+	for k := 0; k+1 < len(lines); k++ {
+		if strings.HasPrefix(lines[k], "github.com/megaease/easegress/pkg/") && !strings.Contains(lines[k+1], "zz_vf") {
+			fn := lines[k]
+			if j := strings.LastIndex(fn, "("); j > 0 {
+				fn = fn[:j]
+			}
+			if j := strings.LastIndex(fn, "/"); j >= 0 {
+				fn = fn[j+1:]
+			}
+			site = fn
+			break
+		}
+	}
+	return first + " @ " + site
 }
 
 func (r *vfxRig) backendHandler(w http.ResponseWriter, req *http.Request) {
@@ -364,7 +421,7 @@ func vfxNewRig(cfg *vfxCfg) (rig *vfxRig, err error) {
 	r.front = &http.Server{
 		Handler:     r.mux,
 		IdleTimeout: 60 * time.Second,
-		ErrorLog:    log.New(io.Discard, "", log.LstdFlags),
+		ErrorLog:    log.New(&r.frontLog, "", 0),
 	}
 	r.front.SetKeepAlivesEnabled(true)
 	go func() { _ = r.front.Serve(r.ln) }()
